@@ -784,6 +784,14 @@ func (e *SpecEnv) evalCall(n *SCall) Value {
 		}
 		// different backing arrays, or non-overlapping index ranges (empty/nil slices are disjoint from everything)
 		return Sc{Or(Neq(a.Arr, b.Arr), Cmp("<=", Arith("+", a.Off, a.Len), b.Off), Cmp("<=", Arith("+", b.Off, b.Len), a.Off), Eq(a.Len, TZero), Eq(b.Len, TZero)), tb}
+	case "now":
+		k := "1"
+		if len(n.Args) == 1 {
+			if l, ok := n.Args[0].(*SLit); ok {
+				k = l.Val
+			}
+		}
+		return Sc{u.ctx.Const("time.Now#"+k, SInt), u.w.lookupType("time", "Time")}
 	case "nonnil":
 		var cs []Term
 		for _, a := range n.Args {
